@@ -93,6 +93,7 @@ def parseOp (line : String) : Op :=
       | "last_line" => some .lastLine
       | "len" => some .len
       | "is_empty" => some .isEmpty
+      | "flush" => some .flush
       | "range" => some .range
       | "payload_size" => some .payloadSize
       | "page" => do pure (.page (← (← get "n").toNat?))
